@@ -60,6 +60,7 @@ type Obligation struct {
 	ModelVars []string // terms to get-value on sat
 	idxDefined bool    // emit `idx` as a macro instead of an axiomatised symbol
 	noQuant    bool    // probe variant without quantified hypotheses
+	template   *templateInfo // K6 obligations: the SQL filter this obligation is about
 }
 
 type loopInfo struct {
